@@ -47,7 +47,27 @@ ASSUMPTIONS = [
     "a rejected value may raise ValueError or TypeError; which one is not part of the statement",
 ]
 OPS = {">": operator.gt, ">=": operator.ge, "<": operator.lt, "<=": operator.le, "==": operator.eq, "!=": operator.ne}
-CANDIDATES = [0, 1, 2, -1, 3, 0.0, 0.5, 1.0, 1.5, 2.0, -0.5, 2.5, 1e22, -0.0, True, False, "0", "1", " 1 ", "+1", "-1", "1_0", "1e0", "1.0", "1.5", "abc", "", " ", "0x1", "１",
+class FloatSub(float):
+    pass
+
+
+class IntSub(int):
+    pass
+
+
+class StrSub(str):
+    pass
+
+
+def realise(v):
+    """candidates that are instances of subclasses of the basic types are kept symbolic ({"$sub": base, "v": value}) so that cases stay plain data"""
+    if isinstance(v, dict) and "$sub" in v:
+        return {"float": FloatSub, "int": IntSub, "str": StrSub}[v["$sub"]](v["v"])
+    return v
+
+
+CANDIDATES = [{"$sub": "float", "v": 2.5}, {"$sub": "float", "v": 2.0}, {"$sub": "float", "v": 0.5}, {"$sub": "int", "v": 1}, {"$sub": "str", "v": "1"}, {"$sub": "str", "v": "1.5"},
+              0, 1, 2, -1, 3, 0.0, 0.5, 1.0, 1.5, 2.0, -0.5, 2.5, 1e22, -0.0, True, False, "0", "1", " 1 ", "+1", "-1", "1_0", "1e0", "1.0", "1.5", "abc", "", " ", "0x1", "１",
               None, [1], {"a": 1}, (1,), 10**30, float("inf"), float("-inf"), float("nan"), "nan", "inf", b"1", 1 + 0j]
 
 
@@ -110,8 +130,9 @@ def enum_shard(ctx, part, of):
                     case = {"kind": "number", "base": base.__name__, "restrictions": [list(r) for r in restr], "join": join, "value": v}
                     ctx.begin(case)
                     check_number(ctx, T, base, restr, join, v)
-                    boundary = isinstance(v, (int, float)) and not isinstance(v, bool) and any(v == ref for _op, ref in restr)
-                    if boundary or not (type(v) is base):
+                    rv = realise(v)
+                    boundary = isinstance(rv, (int, float)) and not isinstance(rv, bool) and any(rv == ref for _op, ref in restr)
+                    if boundary or not (type(rv) is base):
                         ctx.mark_nontrivial_enumerated()
                     if not ctx.end(raise_on_fail=False):
                         return
@@ -119,6 +140,7 @@ def enum_shard(ctx, part, of):
 
 
 def check_number(ctx, T, base, restr, join, v):
+    v = realise(v)
     exp, bv = oracle_number(base, restr, join, v)
     try:
         got = T(v)
@@ -156,19 +178,31 @@ def _value_kind(v):
     return type(v).__name__
 
 
-REGEXES = ["^[a-z]+$", "^[a-z]{2,4}$", "[0-9a-f]{4}$", "v[0-9]+", "^a", "b$", "", ".", "^$", "(?i)abc", "a|b", "^(a|b)+$", "\\d+\\.\\d+", "^\\s*x"]
-STRINGS = ["", "a", "ab", "abc", "abcde", "A", "xx00ff", "00ff", "rev12", "v12", "v12x", "ba", "b", "ABC", "1.5", "x1.5", " x", "\nx", "a\n", "ab\n", 5, None, b"ab", ["a"]]
+REGEXES = ["^[a-z]+$", "^[a-z]{2,4}$", "[0-9a-f]{4}$", "v[0-9]+", "^a", "b$", "", ".", "^$", "(?i)abc", "a|b", "^(a|b)+$", "\\d+\\.\\d+", "^\\s*x",
+           # patterns handed over as compiled objects, with flags: [pattern, flag letters]
+           ["^#[0-9a-f]{6}$", "I"], ["^a.b$", "S"], ["^x$", "M"], ["^ [a-c] + $", "XI"]]
+STRINGS = ["", "a", "ab", "abc", "abcde", "A", "xx00ff", "00ff", "rev12", "v12", "v12x", "ba", "b", "ABC", "1.5", "x1.5", " x", "\nx", "a\n", "ab\n", 5, None, b"ab", ["a"],
+           "#00FF7F", "#00ff7f", "a\nb", "y\nx", "AbC"]
+FLAGS = {"I": re.IGNORECASE, "S": re.DOTALL, "M": re.MULTILINE, "X": re.VERBOSE}
 
 
 def string_shard(ctx):
     from jsonargparse.typing import restricted_string_type
 
     for i, rx in enumerate(REGEXES):
-        T = restricted_string_type(f"VfRS{i}", rx)
+        if isinstance(rx, list):
+            bits = 0
+            for ch in rx[1]:
+                bits |= FLAGS[ch]
+            rxo = re.compile(rx[0], bits)
+            ctx.cls("string:compiled-pattern-with-flags")
+        else:
+            rxo = rx
+        T = restricted_string_type(f"VfRS{i}", rxo)
         for v in STRINGS:
             case = {"kind": "string", "regex": rx, "value": v if not isinstance(v, bytes) else {"$bytes": v.decode()}}
             ctx.begin(case)
-            exp = isinstance(v, str) and re.match(rx, v) is not None
+            exp = isinstance(v, str) and re.match(rxo, v) is not None
             try:
                 got = T(v)
                 acc = True
@@ -196,7 +230,7 @@ def string_shard(ctx):
     for name, (T, base, restr) in predefined.items():
         p = ArgumentParser(exit_on_error=False)
         p.add_argument("--x", type=T)
-        for v in [c for c in CANDIDATES if not isinstance(c, (str, bytes, complex)) and c is not None]:
+        for v in [c for c in CANDIDATES if not isinstance(c, (str, bytes, complex)) and c is not None and not (isinstance(c, dict) and "$sub" in c)]:
             case = {"kind": "predefined", "type": name, "value": v, "channel": "object"}
             ctx.begin(case)
             exp, bv = oracle_number(base, restr, "and", v)
